@@ -135,6 +135,16 @@ def safe_literal_eval(value):
     return literal_eval(value)
 
 
+def get_function_name(funcdef):
+    """
+    The name of a function for messages. A lambda has no name
+    (``Lambda.name`` raises an ``AttributeError``).
+    """
+    if funcdef.type == 'lambdef':
+        return '<lambda>'
+    return funcdef.name.value
+
+
 def get_signature(funcdef, width=72, call_string=None,
                   omit_first_param=False, omit_return_annotation=False):
     """
